@@ -98,12 +98,18 @@ class LoopSpec(object):
         self.check = check           # check(I, fr, it) -> prove-only clauses (extensional equality with the constructed form)
 
     # -- helpers
+    def _oid(self, phase, cid):
+        # a loop invariant is *assumed* on the exit path, so every later clause of the unit rests on it: its obligations count
+        # for every property the unit serves ('*'), whatever property named it first
+        name = self.name if self.name.startswith('*') or ':' not in self.name else '*+' + self.name
+        return '%s.%s.%s' % (name, phase, cid)
+
     def _prove_inv(self, I, fr, it, phase):
         for cid, b in self.inv(I, fr, it):
-            I.ctx.prove(b, '%s.%s.%s' % (self.name, phase, cid))
+            I.ctx.prove(b, self._oid(phase, cid))
         if self.check is not None:
             for cid, b in self.check(I, fr, it):
-                I.ctx.prove(b, '%s.%s.%s' % (self.name, phase, cid))
+                I.ctx.prove(b, self._oid(phase, cid))
 
     def _assume_inv(self, I, fr, it):
         if self.construct is not None:
